@@ -82,6 +82,73 @@ def outcome_class(effects, f, region_calls):
     return "value"
 
 
+def need_imports_only_outcome(fx, ck, name="S8.need-imports"):
+    """Every entry point that answers NeedImports does so under `if !missing.is_empty()`.  From the non-empty
+    edge of that test every path to a return must build a NeedImports answer: a path that starts the run
+    anyway (or answers anything else) makes this way of running the program differ from its siblings in
+    what the host is asked for and in when dependency modules execute."""
+    ck.rule(name, "from the non-empty edge of the emptiness test that guards a NeedImports answer, every return builds NeedImports", floor=3)
+
+    def builds(f, b):
+        return any(s[0] == "a" and s[2][0] == "agg" and isinstance(s[2][1], dict) and s[2][1].get("p", "").endswith("StepResult")
+                   and s[2][1].get("v") == "NeedImports" for s in f.blocks[b]["s"])
+    for f in fx.fns.values():
+        if f.derived:
+            continue
+        sites = [b for b in range(len(f.blocks)) if builds(f, b)]
+        if not sites:
+            continue
+        done = set()
+        for B in sites:
+            import c10
+            import inplace
+            # the collection handed to the host is the one whose emptiness was tested
+            opnd = next((s[2][2][0] for s in f.blocks[B]["s"] if s[0] == "a" and s[2][0] == "agg" and isinstance(s[2][1], dict)
+                         and s[2][1].get("v") == "NeedImports" and s[2][2]), None)
+            if opnd is None or opnd[0] not in ("c", "m"):
+                continue
+            root = c10.copy_root_local(f, opnd[1][0])
+            tests = []
+            for bi, t in f.calls():
+                if t[1].get("d", "").endswith("::is_empty") and t[4] is not None and t[2] and f.dominates(bi, B):
+                    cr = inplace.container_root(f, t[2][0])
+                    if cr and cr[0] == "local" and c10.copy_root_local(f, cr[1]) == root:
+                        tests.append((bi, t))
+            if not tests:
+                continue
+            bi, t = tests[0]
+            if bi in done:
+                continue
+            done.add(bi)
+            sw = t[4]
+            while f.blocks[sw]["t"][0] == "goto":
+                sw = f.blocks[sw]["t"][1]
+            edges = [e for e in f.succ(sw) if f.dominates(e, B) or e == B]
+            if f.blocks[sw]["t"][0] != "switch" or len(edges) != 1:
+                continue
+            E = edges[0]
+            # search for a return that avoids every NeedImports construction
+            seen = set()
+            work = [E]
+            escape = None
+            while work:
+                x = work.pop()
+                if x in seen or builds(f, x):
+                    continue
+                seen.add(x)
+                tt = f.blocks[x]["t"]
+                if tt[0] == "ret":
+                    escape = x
+                    break
+                work.extend(f.succ(x))
+            ok = escape is None
+            ck.instance(name, "%s: test at %s" % (f.parent, "is_empty"), F.short_span(t[6]), ok=ok)
+            if not ok:
+                ck.finding(name, "%s/%s" % (name, f.parent), F.short_span(t[6]),
+                           "`%s` can return without a NeedImports answer although the set of imports it just found missing is not empty: the host is not "
+                           "asked for modules that a sibling entry point does ask for, and dependency modules run at a different point of the protocol" % f.parent)
+
+
 def run(tier):
     ck = Check("C19", tier, "sibling comparison of transitive effect signatures on corresponding CFG fragments (match arms of shared enums, dominating regions)",
                ["equality of results, output and exports between entry points (values)"])
@@ -193,4 +260,6 @@ def run(tier):
             ck.finding("S7.capi-step-run", "S7/%s" % "+".join(sorted(only_a | only_b | we))[:80], F.short_span(b[0].span),
                        "tsrun_step and tsrun_run differ: only step calls {%s}; only run calls {%s}; effect diff {%s}"
                        % (", ".join(sorted(only_a)), ", ".join(sorted(only_b)), ", ".join(sorted(we))))
+    # ---- S8: a non-empty set of imports the host still has to supply has exactly one outcome
+    need_imports_only_outcome(fx, ck)
     return ck.finish()
